@@ -91,7 +91,7 @@ def gen_driver(batch, main=None, extra=''):
     out.append('static const ls_inputs sets[] = {%s};' % ','.join(decl))
     rows = []
     for c in batch.cases:
-        rows.append('{"%s", (void*)m_%s, tr%d, %d, "%s", \'%s\', %d, %d}' % (c.name, c.name, sigs[(c.params, c.result)], len(c.params), c.params, c.result, c.inputset, c.direct_op))
+        rows.append('{"%s", (void*)%s, tr%d, %d, "%s", \'%s\', %d, %d}' % (getattr(c, 'export', None) or c.name, getattr(c, 'sym', None) or 'm_' + c.name, sigs[(c.params, c.result)], len(c.params), c.params, c.result, c.inputset, c.direct_op))
     out.append('static const ls_func funcs[] = {\n%s\n};' % ',\n'.join(rows))
     pre = ''
     if batch.externs:
@@ -100,16 +100,16 @@ def gen_driver(batch, main=None, extra=''):
             cond = '!strcmp(m,"%s")&&!strcmp(n,"%s")' % (mod, nm)
             if kind == 'table':
                 decl.append('static wasmTable ext%d; static wr_table* rext%d;' % (k, k))
-                init.append('wasmTableAllocate(&ext%d, %d, %d); rext%d = wr_table_new(%d, %d, 1);' % (k, spec[0], spec[1], k, spec[0], spec[1]))
+                init.append('if (rext%d) { free(ext%d.data); free(rext%d->e); free(rext%d); } wasmTableAllocate(&ext%d, %d, %d); rext%d = wr_table_new(%d, %d, 1);' % (k, k, k, k, k, spec[0], spec[1], k, spec[0], spec[1]))
                 rimpl.append('if (%s) return &ext%d;' % (cond, k)); rtab.append('if (%s) return rext%d;' % (cond, k))
             elif kind == 'global':
                 ct = CT[spec[0]]
                 decl.append('static %s ext%d; static wr_global* rext%d;' % (ct, k, k))
-                init.append('{ uint64_t b = 0x%xull; memcpy(&ext%d, &b, sizeof ext%d); rext%d = wr_global_new(%d, b, 1); }' % (spec[1], k, k, k, {'i': 0x7f, 'I': 0x7e, 'f': 0x7d, 'F': 0x7c}[spec[0]]))
+                init.append('{ uint64_t b = 0x%xull; memcpy(&ext%d, &b, sizeof ext%d); free(rext%d); rext%d = wr_global_new(%d, b, 1); }' % (spec[1], k, k, k, k, {'i': 0x7f, 'I': 0x7e, 'f': 0x7d, 'F': 0x7c}[spec[0]]))
                 rimpl.append('if (%s) return &ext%d;' % (cond, k)); rglob.append('if (%s) return rext%d;' % (cond, k))
             else:
                 decl.append('static wasmMemory* ext%d; static wr_memory* rext%d;' % (k, k))
-                init.append('ext%d = wasmMemoryAllocate(%d, %d, %d); rext%d = wr_memory_new(%d, %d, 1, %d);' % (k, spec[0], spec[1], 1 if spec[2] else 0, k, spec[0], spec[1], 1 if spec[2] else 0))
+                init.append('if (rext%d) { free(ext%d->data); free(ext%d); free(rext%d->data); free(rext%d); } ' % (k, k, k, k, k) + 'ext%d = wasmMemoryAllocate(%d, %d, %d); rext%d = wr_memory_new(%d, %d, 1, %d); memset(ext%d->data, 0xEE, %du * 65536u); memset(rext%d->data, 0xEE, %du * 65536u);' % (k, spec[0], spec[1], 1 if spec[2] else 0, k, spec[0], spec[1], 1 if spec[2] else 0, k, spec[0], k, spec[0]))
                 rimpl.append('if (%s) return ext%d;' % (cond, k)); rmem.append('if (%s) return rext%d;' % (cond, k))
         out += decl
         out.append('static void* gen_resolve(const char* m, const char* n) { %s return NULL; }' % ' '.join(rimpl))
@@ -125,6 +125,17 @@ def gen_driver(batch, main=None, extra=''):
             rows.append('{%d, {%s}, %d}' % (ci, ','.join('0x%xull' % v for v in a), flag))
         out.append('static const ls_op ops[] = {%s};' % ',\n'.join(rows))
         out.append('int main(int argc, char** argv) { %s return ls_main_bfs(argc, argv, funcs, %d, ops, %d, %d, %dull); }' % (pre, len(batch.cases), len(batch.ops), batch.bfs_depth, batch.bfs_budget))
+    if main == 'seq2':
+        rows = []
+        for ci, args, inst in batch.ops:
+            a = list(args) + [0] * (4 - len(args))
+            rows.append('{%d, {%s}, %d}' % (max(ci, 0), ','.join('0x%xull' % v for v in a), inst))
+        out.append('static const ls_op2 ops[] = {%s};' % ',\n'.join(rows))
+        if batch.externs:
+            out.append('static void gen_reset(void) { %s }' % pre)
+            out.append('int main(int argc, char** argv) { ls_env_reset = gen_reset; return ls_main_seq2(argc, argv, funcs, %d, ops, %d, %d); }' % (len(batch.cases), len(batch.ops), batch.seq_len))
+        else:
+            out.append('int main(int argc, char** argv) { return ls_main_seq2(argc, argv, funcs, %d, ops, %d, %d); }' % (len(batch.cases), len(batch.ops), batch.seq_len))
     if main == 'pure' and getattr(batch, 'compare_mem', False):
         pre += ' ls_compare_mem_flag = 1;'
     if main == 'pure':
